@@ -68,7 +68,10 @@ class G:
     def string(self):
         r = self.r
         n = r.choice([0, 1, 3, 8, 20])
-        return {"t": "Str", "s": [1 + r.below(126) for _ in range(n)], "owned": r.chance(1, 2)}
+        s = [1 + r.below(126) for _ in range(n)]
+        if r.chance(1, 5):      # multi-byte UTF-8 characters
+            s += list(r.choice(["\u00e9", "\u20ac", "\U0001f600"]).encode("utf-8"))
+        return {"t": "Str", "s": s, "owned": r.chance(1, 2)}
 
     def eisa(self):
         r = self.r
